@@ -249,6 +249,10 @@ pub fn cred_json(d: &Dict, p: &Passkey) -> Value {
     })
 }
 
+pub fn no_opts() -> Value {
+    json!({"rk": false, "up": false, "uv": false})
+}
+
 pub fn no_cred() -> Value {
     json!({"id": "none", "rp": "none", "user": "none", "ctr": {"hi": -1, "lo": 0}, "hm": "none"})
 }
@@ -388,7 +392,7 @@ impl CredentialStore for TStore {
             let snap = self.snapshot(&s.dict);
             drop(s);
             self.emit(json!({"call": "find", "idsGiven": ids.is_some(), "ids": ids_json, "rp": rp_name, "cred": no_cred(),
-                             "ok": res.is_ok(), "err": err, "found": found, "snap": snap, "faulted": fault.is_some()}));
+                             "ok": res.is_ok(), "err": err, "found": found, "snap": snap, "faulted": fault.is_some(), "opts": no_opts()}));
         }
         gate(&self.sh).await;
         res
@@ -402,6 +406,7 @@ impl CredentialStore for TStore {
         _options: Options,
     ) -> Result<(), StatusCode> {
         gate(&self.sh).await;
+        let opts = (_options.rk, _options.up, _options.uv);
         let fault = self.fault();
         let rp_name = {
             let mut s = self.sh.lock().unwrap();
@@ -431,7 +436,8 @@ impl CredentialStore for TStore {
             let snap = self.snapshot(&s.dict);
             drop(s);
             self.emit(json!({"call": "save", "idsGiven": false, "ids": [], "rp": rp_name, "cred": c,
-                             "ok": res.is_ok(), "err": err, "found": [], "snap": snap, "faulted": fault.is_some()}));
+                             "ok": res.is_ok(), "err": err, "found": [], "snap": snap, "faulted": fault.is_some(),
+                             "opts": {"rk": opts.0, "up": opts.1, "uv": opts.2}}));
         }
         gate(&self.sh).await;
         res
@@ -463,7 +469,7 @@ impl CredentialStore for TStore {
             let snap = self.snapshot(&s.dict);
             drop(s);
             self.emit(json!({"call": "update", "idsGiven": false, "ids": [], "rp": c["rp"], "cred": c,
-                             "ok": res.is_ok(), "err": err, "found": [], "snap": snap, "faulted": fault.is_some()}));
+                             "ok": res.is_ok(), "err": err, "found": [], "snap": snap, "faulted": fault.is_some(), "opts": no_opts()}));
         }
         gate(&self.sh).await;
         res
@@ -476,7 +482,7 @@ impl CredentialStore for TStore {
             let snap = self.snapshot(&s.dict);
             drop(s);
             self.emit(json!({"call": "info", "idsGiven": false, "ids": [], "rp": "none", "cred": no_cred(),
-                             "ok": true, "err": 0, "found": [], "snap": snap, "faulted": false}));
+                             "ok": true, "err": 0, "found": [], "snap": snap, "faulted": false, "opts": no_opts()}));
         }
         gate(&self.sh).await;
         match &self.inner {
